@@ -8,6 +8,8 @@ from harness.refmodel import ref_inner, pairs_to_rows
 S = load()
 
 PROPERTY = "C09"
+LEVEL_TEXT = 'Exploration against a nested-loop reference join (rows and order) with generated keys of 1-3 components incl. None, many-to-many buckets and external key vectors; the same corpus re-executed under 4 (thorough 7) PYTHONHASHSEED values.'
+LEVEL_NOTE = 'A join may refuse key columns whose lattice kinds differ.'
 DESIGN_REF = "DESIGN.md §5 C09"
 ENGINE = "relational"
 TECHNIQUE = "property-based testing: Hypothesis-generated table pairs vs a nested-loop reference join; same corpus re-executed under several PYTHONHASHSEED values"
